@@ -33,26 +33,105 @@ import (
 	"nriverif/ev"
 )
 
-type applied struct {
-	spec     *rspec.Spec
+// stepResult is what one Adjust call of a history left behind.
+type stepResult struct {
+	canon    string // canonical JSON of the spec after the step + CDI calls of the step
 	cdiCalls [][]string
-	err      error
-	panicked any
 }
 
-// applyOnce runs the code under test on a fresh copy of the spec.
-func applyOnce(specJSON []byte, a *Adj, fromSpec bool, shared ...*nri.ContainerAdjustment) (res applied) {
+func copySpec(s *rspec.Spec) *rspec.Spec {
+	out := &rspec.Spec{}
+	b, _ := json.Marshal(s)
+	_ = json.Unmarshal(b, out)
+	return out
+}
+
+// fillSentinel makes v a recognisable non-zero value of its type.
+func fillSentinel(v reflect.Value) {
+	switch v.Kind() {
+	case reflect.String:
+		v.SetString("~sentinel~")
+	case reflect.Bool:
+		v.SetBool(true)
+	case reflect.Int, reflect.Int8, reflect.Int16, reflect.Int32, reflect.Int64:
+		v.SetInt(0x5a)
+	case reflect.Uint, reflect.Uint8, reflect.Uint16, reflect.Uint32, reflect.Uint64:
+		v.SetUint(0x5a)
+	case reflect.Struct:
+		for i := 0; i < v.NumField(); i++ {
+			if v.Field(i).CanSet() {
+				fillSentinel(v.Field(i))
+			}
+		}
+	}
+}
+
+// walkSlices visits every non-nil slice reachable from v through pointers, struct fields
+// and slice elements.
+func walkSlices(v reflect.Value, path string, visit func(path string, s reflect.Value)) {
+	switch v.Kind() {
+	case reflect.Ptr:
+		if !v.IsNil() {
+			walkSlices(v.Elem(), path, visit)
+		}
+	case reflect.Struct:
+		t := v.Type()
+		for i := 0; i < v.NumField(); i++ {
+			if t.Field(i).IsExported() {
+				walkSlices(v.Field(i), path+"."+t.Field(i).Name, visit)
+			}
+		}
+	case reflect.Slice:
+		if v.IsNil() {
+			return
+		}
+		visit(path, v)
+		if k := v.Type().Elem().Kind(); k == reflect.Struct || k == reflect.Ptr || k == reflect.Slice {
+			for i := 0; i < v.Len(); i++ {
+				walkSlices(v.Index(i), fmt.Sprintf("%s[%d]", path, i), visit)
+			}
+		}
+	}
+}
+
+// aliasProbe appends a sentinel element to a shallow view of every slice of the spec that
+// has spare capacity (exactly what a later `s = append(s, x)` by a CDI injector, a second
+// Adjust or the runtime does: it writes into the spare capacity) and requires that nothing
+// else changes: neither any other part of the spec nor the adjustment object. A slice
+// whose spare capacity overlaps the storage of another one fails this.
+func aliasProbe(spec *rspec.Spec, adj *nri.ContainerAdjustment) (fail string, probed int) {
+	specSnap, adjSnap := canon(spec), canon(adj)
+	walkSlices(reflect.ValueOf(spec), "spec", func(path string, sl reflect.Value) {
+		if fail != "" || sl.Cap() == sl.Len() {
+			return
+		}
+		probed++
+		elem := reflect.New(sl.Type().Elem()).Elem()
+		fillSentinel(elem)
+		_ = reflect.Append(sl, elem) // the view is dropped; only spare capacity was written
+		if now := canon(spec); now != specSnap {
+			var d []string
+			diff("", generic([]byte(specSnap)), generic([]byte(now)), &d, 4)
+			fail = fmt.Sprintf("appending one element to %s (len %d) changed other parts of the spec (its spare capacity is shared): %s", path, sl.Len(), strings.Join(d, "; "))
+			return
+		}
+		if now := canon(adj); now != adjSnap {
+			fail = fmt.Sprintf("appending one element to %s (len %d) changed the adjustment object: before %s, after %s", path, sl.Len(), adjSnap, now)
+		}
+	})
+	return fail, probed
+}
+
+// runHistory applies the adjustments one after another to ONE generator over a fresh copy
+// of the spec. With judge set, every step is compared with the model (folded step by step
+// from the state the implementation actually produced) and followed by the aliasing probe.
+// shared, when non-nil, supplies the adjustment objects (the same ones as in earlier
+// histories) instead of fresh ones.
+func runHistory(specJSON []byte, steps []Adj, fromSpec bool, inj *Inject, shared []*nri.ContainerAdjustment, judge, probe bool) (results []stepResult, out ev.Outcome) {
 	spec := &rspec.Spec{}
 	if err := json.Unmarshal(specJSON, spec); err != nil {
-		res.err = fmt.Errorf("harness: cannot decode spec: %w", err)
-		return res
+		return nil, ev.Outcome{Excluded: "spec not decodable"}
 	}
-	res.spec = spec
-	defer func() {
-		if p := recover(); p != nil {
-			res.panicked = p
-		}
-	}()
 	var rg *rgen.Generator
 	if fromSpec {
 		g := rgen.NewFromSpec(spec)
@@ -60,24 +139,83 @@ func applyOnce(specJSON []byte, a *Adj, fromSpec bool, shared ...*nri.ContainerA
 	} else {
 		rg = &rgen.Generator{Config: spec}
 	}
+	step := 0
+	var cdiCalls [][]string
 	xg := xgen.SpecGenerator(rg,
 		xgen.WithBlockIOResolver(resolveBlockIO),
 		xgen.WithRdtResolver(resolveRdt),
 		xgen.WithCDIDeviceInjector(func(s *rspec.Spec, names []string) error {
-			if s != spec {
+			if s != rg.Config {
 				return fmt.Errorf("CDI injector was handed a different spec")
 			}
-			res.cdiCalls = append(res.cdiCalls, append([]string(nil), names...))
+			cdiCalls = append(cdiCalls, append([]string(nil), names...))
+			inj.apply(s, step) // a real injector edits the spec it is handed
 			return nil
 		}),
 	)
-	adj := a.ToNRI()
-	if len(shared) > 0 && shared[0] != nil {
-		adj = shared[0] // the very same adjustment object as in earlier applications
+	adjust := func(adj *nri.ContainerAdjustment) (err error, panicked any) {
+		defer func() {
+			if p := recover(); p != nil {
+				panicked = p
+			}
+		}()
+		return xg.Adjust(adj), nil
 	}
-	res.err = xg.Adjust(adj)
-	res.spec = rg.Config
-	return res
+	for step = 0; step < len(steps); step++ {
+		a := &steps[step]
+		var orig, want *rspec.Spec
+		var wantCDI []string
+		if judge {
+			orig, want = copySpec(rg.Config), copySpec(rg.Config)
+			wantCDI = applyModel(want, a, inj, step)
+		}
+		adj := a.ToNRI()
+		if shared != nil {
+			adj = shared[step]
+		}
+		cdiCalls = nil
+		err, panicked := adjust(adj)
+		if panicked != nil {
+			return nil, ev.Failf("Adjust panicked (step %d of the history): %v", step, panicked)
+		}
+		if err != nil {
+			return nil, ev.Failf("Adjust failed (step %d of the history): %v", step, err)
+		}
+		if rg.Config == nil {
+			return nil, ev.Failf("generator lost its spec (step %d of the history)", step)
+		}
+		results = append(results, stepResult{canon: canon(rg.Config) + " cdi=" + canon(cdiCalls), cdiCalls: cdiCalls})
+		if judge {
+			// CDI names as handed to the injector
+			if wantCDI == nil {
+				if len(cdiCalls) != 0 {
+					return nil, ev.Failf("step %d: CDI injector called although no CDI device was requested: %s", step, canon(cdiCalls))
+				}
+			} else if len(cdiCalls) != 1 || !reflect.DeepEqual(cdiCalls[0], wantCDI) {
+				return nil, ev.Failf("step %d: CDI devices: requested %s, injector was handed %s", step, canon(wantCDI), canon(cdiCalls))
+			}
+			got := copySpec(rg.Config)
+			gotCopy, wantCopy := canon(got), canon(want)
+			var injected *Inject
+			if len(a.CDI) > 0 {
+				injected = inj
+			}
+			fail, lenient := compare(orig, want, got, a, injected, step)
+			if fail != "" {
+				o := ev.Failf("step %d: %s", step, fail)
+				o.History = map[string]any{"result": json.RawMessage(gotCopy), "model": json.RawMessage(wantCopy), "before_step": orig}
+				return nil, o
+			}
+			out.Lenient = append(out.Lenient, lenient...)
+		}
+		if probe {
+			fail, _ := aliasProbe(rg.Config, adj)
+			if fail != "" {
+				return nil, ev.Failf("step %d: %s", step, fail)
+			}
+		}
+	}
+	return results, out
 }
 
 func canon(v any) string {
@@ -191,9 +329,43 @@ func accessOK(s string) bool {
 
 // compare judges got (the implementation's result) against want (the model's result);
 // orig is the spec before the adjustment. It consumes want and got.
-func compare(orig, want, got *rspec.Spec, a *Adj) (fail string, lenient []string) {
+func compare(orig, want, got *rspec.Spec, a *Adj, injected *Inject, step int) (fail string, lenient []string) {
 	if got.Process == nil || got.Linux == nil {
 		return fmt.Sprintf("process or linux section vanished: process nil=%v linux nil=%v", got.Process == nil, got.Linux == nil), nil
+	}
+
+	// --- the hook appended by the CDI injector callback in this step must be there exactly
+	// once, in the list of its kind (wherever the implementation calls the injector relative
+	// to its own hook handling); it is then taken out so that the requested hooks are
+	// compared in order below
+	if injected != nil && hookList(&rspec.Hooks{}, injected.HookKind) != nil {
+		strip := func(s *rspec.Spec) (inKind, elsewhere int) {
+			if s.Hooks == nil {
+				return 0, 0
+			}
+			for _, kind := range hookKinds {
+				l := hookList(s.Hooks, kind)
+				var keep []rspec.Hook
+				for _, h := range *l {
+					if isInjectedHook(h, step) {
+						if kind == injected.HookKind {
+							inKind++
+						} else {
+							elsewhere++
+						}
+						continue
+					}
+					keep = append(keep, h)
+				}
+				*l = keep
+			}
+			return inKind, elsewhere
+		}
+		gotHooks := canon(got.Hooks)
+		strip(want)
+		if in, other := strip(got); in != 1 || other != 0 {
+			return fmt.Sprintf("the %s hook appended by the CDI injector appears %d times in its list and %d times in other lists: %s", injected.HookKind, in, other, gotHooks), nil
+		}
 	}
 
 	// --- environment: as name->value, no duplicate names, untouched entries keep their order
@@ -223,7 +395,9 @@ func compare(orig, want, got *rspec.Spec, a *Adj) (fail string, lenient []string
 				gotUntouched = append(gotUntouched, e)
 			}
 		}
-		for _, e := range orig.Process.Env {
+		// (the model keeps untouched entries in their original order and has what the CDI
+		// injector appended at the end)
+		for _, e := range want.Process.Env {
 			if k, _, _ := strings.Cut(e, "="); !named[k] {
 				origUntouched = append(origUntouched, e)
 			}
@@ -238,7 +412,7 @@ func compare(orig, want, got *rspec.Spec, a *Adj) (fail string, lenient []string
 
 	// --- mounts: keyed by destination; order judged by the parents-first rule only
 	if len(a.Mounts) == 0 {
-		if w, g := canon(orig.Mounts), canon(got.Mounts); w != g && !(len(orig.Mounts) == 0 && len(got.Mounts) == 0) {
+		if w, g := canon(want.Mounts), canon(got.Mounts); w != g && !(len(want.Mounts) == 0 && len(got.Mounts) == 0) {
 			return fmt.Sprintf("mounts changed although the adjustment names none: before %s, after %s", w, g), nil
 		}
 	} else {
@@ -268,7 +442,7 @@ func compare(orig, want, got *rspec.Spec, a *Adj) (fail string, lenient []string
 
 	// --- devices: keyed by path
 	if len(a.Devices) == 0 {
-		if w, g := canon(orig.Linux.Devices), canon(got.Linux.Devices); w != g && !(len(orig.Linux.Devices) == 0 && len(got.Linux.Devices) == 0) {
+		if w, g := canon(want.Linux.Devices), canon(got.Linux.Devices); w != g && !(len(want.Linux.Devices) == 0 && len(got.Linux.Devices) == 0) {
 			return fmt.Sprintf("devices changed although the adjustment names none: before %s, after %s", w, g), nil
 		}
 	} else {
@@ -652,6 +826,67 @@ func classify(c *C13Case) (classes []string, nontrivial bool) {
 			scalar("rdt", true, s.Linux.IntelRdt != nil)
 		}
 	}
+	// --- histories and the editing CDI injector
+	steps := append([]Adj{*a}, c.More...)
+	add(fmt.Sprintf("history:%d_steps", len(steps)))
+	kindsOf := func(h *AdjHooks) (ks []int) {
+		if h == nil {
+			return nil
+		}
+		for i, l := range [][]AdjHook{h.Prestart, h.CreateRuntime, h.CreateContainer, h.StartContainer, h.Poststart, h.Poststop} {
+			if len(l) > 0 {
+				ks = append(ks, i)
+			}
+		}
+		return ks
+	}
+	kindIdx := map[string]int{}
+	for i, k := range hookKinds {
+		kindIdx[k] = i
+	}
+	injectorFired, laterAppend := false, false
+	for i := range steps {
+		fires := c.Inject != nil && len(steps[i].CDI) > 0
+		if fires {
+			injectorFired = true
+		}
+		ks := kindsOf(steps[i].Hooks)
+		if len(ks) < 2 {
+			continue
+		}
+		// some later append goes to a hook list of a kind this step requested, other than
+		// the last kind it requested: by the injector within this step, or by a later step
+		earlier := map[int]bool{}
+		for _, k := range ks[:len(ks)-1] {
+			earlier[k] = true
+		}
+		if fires {
+			if k, ok := kindIdx[c.Inject.HookKind]; ok && earlier[k] {
+				laterAppend = true
+			}
+		}
+		for j := i + 1; j < len(steps); j++ {
+			for _, k := range kindsOf(steps[j].Hooks) {
+				if earlier[k] {
+					laterAppend = true
+				}
+			}
+			if c.Inject != nil && len(steps[j].CDI) > 0 {
+				if k, ok := kindIdx[c.Inject.HookKind]; ok && earlier[k] {
+					laterAppend = true
+				}
+			}
+		}
+	}
+	if injectorFired {
+		add("injector:edits_spec")
+		if c.Inject.HookKind != "" {
+			add("injector:appends_hook")
+		}
+	}
+	if laterAppend {
+		add("hooks:several_kinds_then_append_to_earlier_kind")
+	}
 	bucket := "families:0"
 	switch {
 	case families >= 9:
@@ -679,72 +914,49 @@ func runC13(c C13Case) ev.Outcome {
 		reps = 2
 	}
 	classes, nontrivial := classify(&c)
+	steps := append([]Adj{c.Adj}, c.More...)
 
-	// reference result
-	orig, want := &rspec.Spec{}, &rspec.Spec{}
-	_ = json.Unmarshal(specJSON, orig)
-	_ = json.Unmarshal(specJSON, want)
-	wantCDI := applyModel(want, &c.Adj)
-
-	var first applied
-	var firstCanon string
-	// Every second application reuses ONE adjustment object (a runtime may apply the same
-	// message to several specs, and "the same inputs" includes the same object): if Adjust
-	// rewrites its argument, later applications see other input.
-	sharedAdj := c.Adj.ToNRI()
+	// Every second history reuses ONE set of adjustment objects (a runtime may apply the
+	// same message to several specs, and "the same inputs" includes the same object): if
+	// Adjust rewrites its argument, later applications see other input.
+	shared := make([]*nri.ContainerAdjustment, len(steps))
+	for i := range steps {
+		shared[i] = steps[i].ToNRI()
+	}
+	var first []stepResult
+	var lenient []string
 	for i := 0; i < reps; i++ {
-		var sh *nri.ContainerAdjustment
+		var sh []*nri.ContainerAdjustment
 		if i%2 == 1 {
-			sh = sharedAdj
+			sh = shared
 		}
-		res := applyOnce(specJSON, &c.Adj, c.FromSpec, sh)
-		if res.panicked != nil {
-			return ev.Failf("Adjust panicked (application %d): %v", i, res.panicked)
-		}
-		if res.err != nil {
-			return ev.Failf("Adjust failed (application %d): %v", i, res.err)
-		}
-		if res.spec == nil {
-			return ev.Failf("generator lost its spec (application %d)", i)
-		}
-		cj := canon(res.spec) + " cdi=" + canon(res.cdiCalls)
-		if i == 0 {
-			first, firstCanon = res, cj
-			continue
-		}
-		if cj != firstCanon {
-			// The verdict text must not depend on which application differed (rapid only
-			// shrinks failures whose message reproduces); the details go into the history.
-			var d []string
-			diff("", generic([]byte(canon(first.spec))), generic([]byte(canon(res.spec))), &d, 6)
-			o := ev.Failf("the same inputs gave different specs: %d applications of one adjustment to copies of one spec did not all give the same result", reps)
-			o.History = map[string]any{
-				"differences":                    d,
-				"cdi_calls":                      [][][]string{first.cdiCalls, res.cdiCalls},
-				"application_0":                  first.spec,
-				fmt.Sprintf("application_%d", i): res.spec,
-				"model":                          want,
-			}
+		// history 0 is judged against the model; histories 0 and 1 (fresh and shared
+		// adjustment objects) get the aliasing probe after every step
+		res, o := runHistory(specJSON, steps, c.FromSpec, c.Inject, sh, i == 0, i < 2)
+		if o.Fail != "" || o.Excluded != "" {
 			return o
 		}
-	}
-
-	// CDI names as handed to the injector
-	if wantCDI == nil {
-		if len(first.cdiCalls) != 0 {
-			return ev.Failf("CDI injector called although no CDI device was requested: %s", canon(first.cdiCalls))
+		if i == 0 {
+			first, lenient = res, o.Lenient
+			continue
 		}
-	} else if len(first.cdiCalls) != 1 || !reflect.DeepEqual(first.cdiCalls[0], wantCDI) {
-		return ev.Failf("CDI devices: requested %s, injector was handed %s", canon(wantCDI), canon(first.cdiCalls))
-	}
-
-	gotCopy := canon(first.spec)
-	wantCopy := canon(want)
-	fail, lenient := compare(orig, want, first.spec, &c.Adj)
-	if fail != "" {
-		o := ev.Failf("%s", fail)
-		o.History = map[string]any{"result": json.RawMessage(gotCopy), "model": json.RawMessage(wantCopy)}
-		return o
+		for k := range res {
+			if res[k].canon != first[k].canon {
+				// The verdict text must not depend on which application differed (rapid only
+				// shrinks failures whose message reproduces); the details go into the history.
+				var d []string
+				diff("", generic([]byte(first[k].canon[:strings.LastIndex(first[k].canon, " cdi=")])), generic([]byte(res[k].canon[:strings.LastIndex(res[k].canon, " cdi=")])), &d, 6)
+				o := ev.Failf("the same inputs gave different specs: %d applications of one history of adjustments to copies of one spec did not all give the same result", reps)
+				o.History = map[string]any{
+					"differences":                    d,
+					"step":                           k,
+					"cdi_calls":                      [][][]string{first[k].cdiCalls, res[k].cdiCalls},
+					"application_0":                  first[k].canon,
+					fmt.Sprintf("application_%d", i): res[k].canon,
+				}
+				return o
+			}
+		}
 	}
 	return ev.Outcome{NonTrivial: nontrivial, Classes: classes, Lenient: lenient}
 }
